@@ -33,6 +33,11 @@ type ForestCase struct {
 	Chains   [][]Step `json:"chains"`
 	Metrics  []pbt.S  `json:"metrics"`
 	Passes   int      `json:"passes"`
+	// Twin names the escape twin appended to the chains ("" for none): two chains whose identities have
+	// different canonical keys on a tree that writes key components verbatim, and the same key under a
+	// writer that puts the character Esc in front of a delimiter without also escaping Esc itself.
+	Twin string `json:"twin,omitempty"`
+	Esc  string `json:"esc,omitempty"`
 }
 
 func genForest(t *rapid.T) ForestCase {
@@ -78,6 +83,35 @@ func genForest(t *rapid.T) ForestCase {
 		}
 		c.Chains = append(c.Chains, ch)
 		c.Metrics = append(c.Metrics, word.Draw(t, "metric"))
+	}
+	// escape twins (plain and cached only: a test scope's snapshot has a second, name-level key)
+	if c.Mode != "test" && rapid.IntRange(0, 3).Draw(t, "twin?") == 0 {
+		c.Esc = rapid.SampledFrom([]string{"\\", "\\", "%", "^", "/", "'"}).Draw(t, "esc")
+		e := pbt.S(c.Esc)
+		if rapid.Bool().Draw(t, "prefixTwin") {
+			// prefix `p<esc>` with the tag k  versus  no prefix with the tag `p+k`: needs a root without
+			// prefix (else the second key would have to begin with the splitter) and without tags (else
+			// the two tag lists may sort differently around the inherited keys)
+			c.Twin = "prefix/key"
+			c.Prefix, c.RootTags = "", nil
+			p, k, v := word.Draw(t, "twinP"), word.Draw(t, "twinK"), val.Draw(t, "twinV")
+			sub := p + e
+			c.Chains = append(c.Chains, []Step{{Sub: &sub}, {Tags: pbt.M{k: v}}}, []Step{{Tags: pbt.M{p + "+" + k: v}}})
+		} else {
+			// tags {m: `u<esc>`, `m0<esc>`: w}  versus  {m: `u,m0=w`} at the end of one base chain; no
+			// other key of this alphabet sorts between "m" and "m0<esc>"
+			c.Twin = "value/key"
+			var base []Step
+			if rapid.Bool().Draw(t, "twinOnChain") {
+				prev := c.Chains[rapid.IntRange(0, len(c.Chains)-1).Draw(t, "twinOf")]
+				base = append(base, prev[:rapid.IntRange(0, len(prev)).Draw(t, "twinUpto")]...)
+			}
+			u, w := val.Draw(t, "twinU"), val.Draw(t, "twinW")
+			a := append(append([]Step{}, base...), Step{Tags: pbt.M{"m": u + e, "m0" + e: w}})
+			b := append(append([]Step{}, base...), Step{Tags: pbt.M{"m": u + ",m0=" + w}})
+			c.Chains = append(c.Chains, a, b)
+		}
+		c.Metrics = append(c.Metrics, word.Draw(t, "twinMetricA"), word.Draw(t, "twinMetricB"))
 	}
 	c.Passes = rapid.IntRange(1, 2).Draw(t, "passes")
 	return c
@@ -145,7 +179,8 @@ func runForest(c ForestCase) (pbt.Outcome, error) {
 		leaves = append(leaves, leaf{s.Counter(string(c.Metrics[i])), d})
 	}
 	if ambiguous {
-		// cannot happen with this alphabet; kept so that the mode never judges inside C05's finding
+		// cannot happen without an escape twin, and with one only if the twin's strings meet another
+		// chain's; kept so that the mode never judges inside C05's finding
 		out.Excluded = "C05/key-delimiter-ambiguity"
 		return out, nil
 	}
@@ -193,13 +228,16 @@ func runForest(c ForestCase) (pbt.Outcome, error) {
 	}
 	out.NonTrivial = len(refs) >= 4
 	out.Classes = append(out.Classes, c.Mode, fmt.Sprintf("scopes=%d", len(refs)))
+	if c.Twin != "" {
+		out.Classes = append(out.Classes, "twin="+c.Twin)
+	}
 	return out, errs.Err()
 }
 
 func TestForest(t *testing.T) {
 	pbt.Main(t, pbt.Prop[ForestCase]{
 		ID: "C04", Name: "forest",
-		Rule: "rapid-generated sets of 2..7 derivation chains (1..3 SubScope/Tagged steps each, a third continuing a prefix of an earlier chain) on one root (plain/cached/test scope, shard count default/1/2/16, prefix empty or a word, separator '.', '', '_' or 'x', 0..2 root tags); every prefix, subscope name, tag key, tag value and metric name is spelled from the pieces {x,e,xe,ex,a,ax,xa} so that a name in front of a key or prefix spells another key or prefix, and none contains '+', ',' or '='. Each chain's leaf counter is incremented by its own power of four on each of 1..2 passes; the delivered total per (name, tags) must equal the sum over the chains that the reference model maps there, and nothing else may be delivered. Non-trivial: at least four distinct scope identities. Distinct: FNV-64 of the case JSON.",
+		Rule: "rapid-generated sets of 2..7 derivation chains (1..3 SubScope/Tagged steps each, a third continuing a prefix of an earlier chain) on one root (plain/cached/test scope, shard count default/1/2/16, prefix empty or a word, separator '.', '', '_' or 'x', 0..2 root tags); every prefix, subscope name, tag key, tag value and metric name is spelled from the pieces {x,e,xe,ex,a,ax,xa} so that a name in front of a key or prefix spells another key or prefix, and none contains '+', ',' or '='. A quarter of the plain/cached cases add an escape twin: two chains that differ on the unchanged tree but get one key under a writer that escapes delimiters with a character it does not escape itself (one of \\ % ^ / '): prefix `p<esc>` with tag k versus no prefix with tag `p+k`, or tags {m: `u<esc>`, `m0<esc>`: w} versus {m: `u,m0=w`}; a case whose reference keys (written verbatim, as the unchanged tree does) coincide for two identities is counted as excluded under C05's open finding. Each chain's leaf counter is incremented by its own power of four on each of 1..2 passes; the delivered total per (name, tags) must equal the sum over the chains that the reference model maps there, and nothing else may be delivered. Non-trivial: at least four distinct scope identities. Distinct: FNV-64 of the case JSON.",
 		Gen:  genForest, Run: runForest, HangAfter: 20 * time.Second,
 	})
 }
